@@ -201,8 +201,16 @@ inductive Val where
 
 instance : Inhabited Val := ⟨.empty⟩
 
-/-- `(x as f64) / 100.0` resp. `x / 100.0` on bit patterns (native IEEE division; opaque to the kernel) -/
-def fdiv100 (bits : Nat) : Nat := ((Float.ofBits bits.toUInt64) / 100.0).toBits.toNat
+/-- a NaN pattern: exponent all ones, mantissa non-zero -/
+def isNaN64 (b : Nat) : Bool := (b / 4503599627370496) % 2048 = 2047 && b % 4503599627370496 ≠ 0
+
+/-- `x / 100.0` on bit patterns (native IEEE division; opaque to the kernel). A NaN operand is propagated with
+    its quiet bit set, payload kept — what the division instruction does on x86-64 and AArch64; written out
+    because Lean's `Float.toBits` does not keep NaN payloads. -/
+def fdiv100 (bits : Nat) : Nat :=
+  if isNaN64 bits then
+    (if (bits / 2251799813685248) % 2 = 1 then bits else bits + 2251799813685248)
+  else ((Float.ofBits bits.toUInt64) / 100.0).toBits.toNat
 
 /-- `v as f64` for an `i64` (native conversion; opaque to the kernel) -/
 def i2f (i : Int) : Nat := (Float.ofInt i).toBits.toNat
